@@ -36,6 +36,7 @@ fn gen(family: &str, profile: &str, seed: u64, count: usize, size: usize) -> Vec
                     "weights" => store::Profile::Weights,
                     "degrees" => store::Profile::Degrees,
                     "big" => store::Profile::Big,
+                    "huge" => store::Profile::Huge,
                     _ => store::Profile::General,
                 };
                 store::gen_case(&mut r, p, size).request()
@@ -44,6 +45,7 @@ fn gen(family: &str, profile: &str, seed: u64, count: usize, size: usize) -> Vec
             "complete" | "karate" | "gnp" | "gnpstat" => gen::gen_case(&mut r, family, profile, size),
             "par" => par::gen_case(&mut r, profile, size).request(),
             "xml" => if profile == "roundtrip" { xml::gen_roundtrip(&mut r, size) } else { xml::gen_malformed(&mut r) },
+            "xmlbig" => format!("xmlbig {} {} {}", r.below(1_000_000), r.range(1500, 3500), r.below(2)),
             "esc" => esc::gen(&mut r, profile),
             "mod" => comm::gen_mod(&mut r, profile, size).request(),
             "louv" => comm::gen_louv(&mut r, profile, size).request(),
@@ -83,6 +85,7 @@ fn run_line(line: &str) -> String {
         "degen" => guarded(move || degen::observe(&mut t)),
         "par" => { let c = par::Case::parse(&mut t); guarded(move || par::observe(&c)) }
         "xml" => guarded(move || xml::observe(&mut t)),
+        "xmlbig" => guarded(move || xml::observe_big(&mut t)),
         "esc" => guarded(move || esc::observe(&mut t)),
         "mod" => { let c = comm::ModCase::parse(&mut t); guarded(move || comm::observe_mod(&c)) }
         "louv" => {
